@@ -829,6 +829,10 @@ func genC07(c *c07Case, r *rand.Rand) {
 			}
 		}
 		name := fmt.Sprintf("r%d", i+1)
+		if r.Intn(3) == 0 {
+			// ordinary identifiers that merely contain a keyword's letters (case_n, lowercase, ordered, limits ...)
+			name = pick(r, []string{"case_n", "lowercase", "ordered", "limits", "endv", "whenever", "thence", "nullable", "likes", "grouped", "elsewhere", "distinctive"}) + fmt.Sprint(i+1)
+		}
 		c.Items = append(c.Items, &c07Item{Name: name, Shape: shape, Expr: e, Text: e.sql(c.Tight, c.Upper) + " AS " + name})
 	}
 	if c.Mode == "counting" || (!c.Distinct && r.Intn(3) == 0) {
